@@ -121,6 +121,15 @@ def run(ctx, repo, tier):
         if isinstance(st, ast.AugAssign) and isinstance(st.target, ast.Attribute) and st.target.attr == "positions":
             mutator_sites.append((k, st, st, call_.text(st.target.value)))
     ctx.instance("RESET", len(mutator_sites))
+    for k, st, call, recv in mutator_sites:
+        if isinstance(call, ast.Call) and call.func.attr == "translate" and isinstance(st, ast.If):
+            in_body = any(call is n for b in st.body for n in ast.walk(b))
+            other = st.orelse if in_body else st.body
+            twin = any(isinstance(n, ast.Call) and isinstance(n.func, ast.Attribute) and n.func.attr == "translate" for b in other for n in ast.walk(b))
+            if not twin:
+                ctx.violate("DOM", "C10.translate.unconditional", "the translation to the row's position is executed only under a condition: for "
+                            "rows / molecules where it is false the frame keeps the molecule at the origin", where, src(call)[:120],
+                            witness=f"translate() is nested in `if {src(st.test)[:80]}` with no translation on the other branch")
     if not mutator_sites:
         ctx.inconclusive("RESET", "C10.reset", "no rotate/translate call found in the frame loop", where)
     last_mut = max([k for k, *_ in mutator_sites], default=-1)
@@ -194,6 +203,14 @@ def run(ctx, repo, tier):
         seen_from_quat = None
         steps = []
         unknown_step = None
+        idx_var = loop.target.elts[0].id if (isinstance(loop.target, ast.Tuple) and len(loop.target.elts) == 2 and
+                                             isinstance(loop.target.elts[0], ast.Name) and isinstance(it, ast.Call) and
+                                             isinstance(it.func, ast.Name) and it.func.id == "enumerate") else None
+        table = None
+        if isinstance(e, ast.Subscript) and not isinstance(e.slice, (ast.Slice, ast.Tuple)):
+            # matrices precomputed for all rows and looked up per frame:  T[<index>]
+            table = (e.value, e.slice)
+            e = e.value
         for _ in range(14):
             if isinstance(e, ast.Attribute) and e.attr == "T":
                 inversions += 1
@@ -231,7 +248,28 @@ def run(ctx, repo, tier):
                       witness=f"{inversions} inversion(s): {''.join(reversed(steps))}")
             q = strip_wrappers(seen_from_quat.args[0]) if seen_from_quat.args else None
             qs = const_slice(q)
-            if qs is not None and isinstance(q.value, ast.Name) and q.value.id == row:
+            if table is not None:
+                # batch form: the table must hold R(q_k) for EVERY row k in row order and be indexed by the plain row counter
+                ix = table[1]
+                cols = q.slice.elts if (isinstance(q, ast.Subscript) and isinstance(q.slice, ast.Tuple) and len(q.slice.elts) == 2) else None
+                all_rows = cols is not None and isinstance(cols[0], ast.Slice) and cols[0].lower is None and cols[0].upper is None and cols[0].step is None
+                qcols = cols is not None and isinstance(cols[1], ast.Slice) and isinstance(cols[1].lower, ast.Constant) and cols[1].lower.value == 3 and \
+                    (cols[1].upper is None or (isinstance(cols[1].upper, ast.Constant) and cols[1].upper.value == 7)) and cols[1].step is None
+                same_grid = cols is not None and cpre.text(q.value) == it_txt
+                plain_idx = isinstance(ix, ast.Name) and ix.id == idx_var
+                if all_rows and qcols and same_grid and plain_idx:
+                    ctx.ok("LAYOUT", "C10.parity.quaternion", "rotation matrices are precomputed for all rows (columns [3:]) and row k uses entry k",
+                           where, src(rc)[:120])
+                elif cols is not None and same_grid and all_rows and qcols and not plain_idx:
+                    ctx.violate("LAYOUT", "C10.parity.quaternion", "frame k does not use the rotation of row k: the precomputed table is indexed by "
+                                "something other than the row counter", where, src(rc)[:120], witness=f"index `{src(ix)}`")
+                elif isinstance(q, ast.Subscript) and not (all_rows and qcols):
+                    ctx.violate("LAYOUT", "C10.parity.quaternion", "the table of rotation matrices is not built from the quaternion columns of "
+                                "ALL rows in row order (a subset / re-ordered selection is not aligned with the frames)", where,
+                                src(seen_from_quat)[:120], witness=f"from_quat({src(q)[:80]}) indexed by `{src(ix)}`")
+                else:
+                    ctx.inconclusive("LAYOUT", "C10.parity.quaternion", "precomputed rotation table not recognised", where, witness=src(q)[:100] if q is not None else "")
+            elif qs is not None and isinstance(q.value, ast.Name) and q.value.id == row:
                 if qs[0] == 3 and qs[1] in (None, 7) and qs[2] in (None, 1):
                     ctx.ok("LAYOUT", "C10.parity.quaternion", "the quaternion is columns [3:] of the current grid row", where, src(seen_from_quat)[:120])
                 else:
